@@ -6,7 +6,7 @@ is regenerated from `/repo` on every run — a change made symmetrically to writ
 (tag values, magic, version, a `struct` format) is invisible to any round trip but changes the
 generated table and breaks `encode_layout_v1` below.
 -/
-import Bermuda.Lemmas.CodecSpec
+import Bermuda.Lemmas.CodecPy
 import Bermuda.Properties.C01
 namespace Bermuda.Properties.C06
 open Bermuda Bermuda.Codec
@@ -110,6 +110,39 @@ theorem metadata_record_only_on_change (pool : List Bytes) (c : RawCell) (cs : L
   · simp [writeRecords]
   · intro prev hp
     simp [writeRecords, hp, hm]
+
+/-- the same clause for the writer as it really decides (`prev_metadata != cell.metadata`, Python's
+`Metadata.__eq__`: details compared as dicts, numbers by value): cells whose Metadata objects are `==`
+— even when their details were filled in another key order or hold `1` vs `1.0` — share ONE record,
+which carries the representation of the first cell of the run -/
+theorem metadata_record_only_on_python_change (pool : List Bytes) (prev : Option RawMetadata)
+    (c : RawCell) (cs : List RawCell) :
+    (pyChanged prev c.md = false → writeRecordsPy pool prev (c :: cs) =
+      (kindTag c.kind :: writeCellBody pool c) ++ writeRecordsPy pool (some c.md) cs) ∧
+    (pyChanged prev c.md = true → writeRecordsPy pool prev (c :: cs) =
+      (0x10 :: writeMetaBody pool c.md) ++
+        ((kindTag c.kind :: writeCellBody pool c) ++ writeRecordsPy pool (some c.md) cs)) := by
+  have hm : K.tMetadata = 0x10 := by decide
+  constructor <;> intro h <;> simp [writeRecordsPy_cons, h, hm]
+
+/-- the file holds exactly one `0x10` record per metadata change along the cell sequence: the
+Spec predicate the driver runs on the IMPLEMENTATION's bytes holds for the model's bytes -/
+theorem records_on_change (t : RawTriangle) (h : wf t = true) :
+    fileMetaRecords (encodePy t) = .ok (metaChanges none t) ∧
+    Spec.C06.recordsOnChange t (encodePy t) = true :=
+  ⟨fileMetaRecords_encodePy t h, recordsOnChange_encodePy t h⟩
+
+/-- on coherent triangles (adjacent metadata Python-equal exactly when identical — the domain of
+the round-trip theorems) the writer-as-written produces the bytes of `encode` -/
+theorem encodePy_eq_encode_of_coherent (t : RawTriangle) (h : coherent t = true) :
+    encodePy t = encode t := encodePy_eq_encode t h
+
+/-- Python's equality sees through the representation: `1 == 1.0 == True`, `0.0 == -0.0`, dict order -/
+example : pyValEq (.int 1) (.flt [0, 0, 0, 0, 0, 0, 240, 63]) = true ∧ pyValEq (.bool true) (.int 1) = true ∧
+    pyValEq (.flt [0, 0, 0, 0, 0, 0, 0, 0]) (.flt [0, 0, 0, 0, 0, 0, 0, 128]) = true ∧
+    pyValEq (.int 1) (.str [49]) = false ∧
+    pyDictEq [([97], .int 1), ([98], .none)] [([98], .none), ([97], .flt [0, 0, 0, 0, 0, 0, 240, 63])] = true := by
+  decide +kernel
 
 /-- the first cell always carries its metadata record -/
 theorem first_cell_has_metadata (pool : List Bytes) (c : RawCell) (cs : List RawCell) :
